@@ -166,6 +166,14 @@ impl SubReport {
         }
     }
 
+    /// Rename the sub-check (also in a failure already recorded, so that its replay file routes correctly).
+    pub fn rename(&mut self, name: String) {
+        if let Some(f) = self.failure.as_mut() {
+            f.sub = name.clone();
+        }
+        self.name = name;
+    }
+
     pub fn fail<T: Serialize>(&mut self, case: &T, reason: String) {
         if self.failure.is_none() {
             self.failure = Some(Failure {
